@@ -5,7 +5,7 @@ import (
 )
 
 func init() {
-	for _, p := range []string{"C01", "C02", "C03", "C06", "C07", "C08", "C09"} {
+	for _, p := range []string{"C01", "C02", "C03", "C06", "C07", "C08", "C09", "L10"} {
 		p := p
 		props[p] = func(r *Run) { runLedger(r, p) }
 	}
@@ -39,7 +39,7 @@ func (r *Run) ledgerEra(i int) (allow, require uint64) {
 }
 
 func runLedger(r *Run, prop string) {
-	nchains := r.pick(12, 300)
+	nchains := r.pick(40, 600)
 	for ci := 0; ci < nchains; ci++ {
 		n := r.ledgerNet()
 		allow, require := r.ledgerEra(ci)
@@ -55,6 +55,16 @@ func runLedger(r *Run, prop string) {
 				continue
 			}
 			b, bs := c.honestBlock()
+			// adversarial variants of this block and boundary / stale-use probes at this height (validate only)
+			focus := "c" + prop[1:] + "."
+			vs := c.variants(b)
+			vs = append(vs, c.boundaryProbes()...)
+			vs = append(vs, c.staleProbes()...)
+			for _, v := range vs {
+				if len(v.name) >= 4 && v.name[:4] == focus || r.rng.IntN(r.pick(25, 8)) == 0 {
+					c.runVariant(v)
+				}
+			}
 			if err := c.process(b, bs, true, "honest"); err != nil {
 				r.violate("ledger.honest-rejected", "an honestly built block was rejected at child height %d: %v (chain %v)", c.child(), err, c.desc)
 				break
